@@ -66,6 +66,12 @@ func (a jsonList) diff(
 	if strategy == mergePatchStrategy {
 		return a.diffMergePatchStrategy(b, path, options)
 	}
+	if a.Equals(b, options...) {
+		// Equal lists have an empty diff, also when elements are only
+		// equal under the options (e.g. numbers within precision) and
+		// therefore have different hash codes.
+		return Diff{}
+	}
 	aHashes := make([]interface{}, len(a))
 	bHashes := make([]interface{}, len(b))
 	for i, v := range a {
